@@ -755,3 +755,54 @@ func (c *Ctx) ConstCond(ifi *ssa.If, key func(v ssa.Value) (CVal, bool)) (int, b
 	}
 	return 1, true
 }
+
+// ConstVal folds v to a constant if it is one after following the arguments
+// bound by in-place exploration (a helper's parameter is the caller's
+// argument) and constant arithmetic; unknown otherwise.
+func ConstVal(v ssa.Value) CVal {
+	var eval func(v ssa.Value, d int) CVal
+	eval = func(v ssa.Value, d int) CVal {
+		if d > 16 {
+			return CVal{}
+		}
+		if a, ok := boundArg[v]; ok {
+			return eval(a, d+1)
+		}
+		switch x := v.(type) {
+		case *ssa.Const:
+			if x.Value == nil {
+				return CVal{}
+			}
+			switch x.Value.Kind() {
+			case constant.Int:
+				if i, ok := constant.Int64Val(x.Value); ok {
+					return CVal{Kind: CInt, I: i}
+				}
+			case constant.Bool:
+				return CVal{Kind: CBool, B: constant.BoolVal(x.Value)}
+			case constant.String:
+				return CVal{Kind: CString, S: constant.StringVal(x.Value)}
+			}
+		case *ssa.Convert:
+			cv := eval(x.X, d+1)
+			if cv.Kind == CInt {
+				cv.I = wrapInt(cv.I, x.Type())
+			}
+			return cv
+		case *ssa.ChangeType:
+			return eval(x.X, d+1)
+		case *ssa.UnOp:
+			cv := eval(x.X, d+1)
+			if x.Op == token.SUB && cv.Kind == CInt {
+				return CVal{Kind: CInt, I: wrapInt(-cv.I, x.Type())}
+			}
+			if x.Op == token.NOT && cv.Kind == CBool {
+				return CVal{Kind: CBool, B: !cv.B}
+			}
+		case *ssa.BinOp:
+			return binop(x.Op, eval(x.X, d+1), eval(x.Y, d+1), x.Type())
+		}
+		return CVal{}
+	}
+	return eval(v, 0)
+}
